@@ -3,7 +3,7 @@ import copy
 from hypothesis import strategies as st
 
 from vf import gen_tx
-from vf.core import Fails, Target, attempt, bx, hx, raised
+from vf.core import Fails, Target, attempt, bx, hx, raised, seq
 from vf.ref import txref
 
 PROPERTY = "C05"
@@ -138,7 +138,7 @@ def check_cs(case):
     enc = attempt(bits.compact_size_uint, i)
     if f.expect(not raised(enc) and enc == want, "compactsize/encode-ne-reference", f"{i} -> {enc!r}"):
         dec = attempt(bits.parse_compact_size_uint, enc + trailing)
-        f.expect(not raised(dec) and tuple(dec) == (i, trailing), "compactsize/parse-ne-input", f"{i} -> {dec!r}")
+        f.expect(not raised(dec) and seq(dec) == (i, trailing), "compactsize/parse-ne-input", f"{i} -> {dec!r}")
     return cls, f
 
 
